@@ -260,7 +260,7 @@ def nfa_union(N1: NFA, N2: NFA, id_generator: IdentifierGenerator = IdentifierGe
     F = N1.F | N2.F
     delta = defaultdict(lambda: set([]))
     delta.update({key: set(Q1) for key, Q1 in N1.delta.items()})
-    delta.update({key: set(Q1) for key, Q1 in N2.delta.items()})
+    delta.update({(q, N1.epsilon if a == N2.epsilon else a): set(Q1) for (q, a), Q1 in N2.delta.items()})
     delta[q0, N1.epsilon] = {N1.q0, N2.q0}
     return NFA(Q, Sigma, delta, q0, F, N1.epsilon)
 
@@ -273,7 +273,7 @@ def nfa_concatenation(N1: NFA, N2: NFA) -> NFA:
     F = N2.F
     delta = defaultdict(lambda: set([]))
     delta.update({key: set(Q1) for key, Q1 in N1.delta.items()})
-    delta.update({key: set(Q1) for key, Q1 in N2.delta.items()})
+    delta.update({(q, N1.epsilon if a == N2.epsilon else a): set(Q1) for (q, a), Q1 in N2.delta.items()})
     for q in N1.F:
         delta[q, N1.epsilon] |= {N2.q0}
     return NFA(Q, Sigma, delta, q0, F, N1.epsilon)
